@@ -26,11 +26,17 @@ type edit struct {
 }
 
 type mutant struct {
-	ID    string
-	Props []string // properties whose check must report it
-	Rules []string // any of these rules must be among the reports
-	Edits []edit
-	Desc  string
+	ID     string
+	Props  []string // properties whose check must report it (benign: must stay silent)
+	Rules  []string // any of these rules must be among the reports
+	Edits  []edit
+	Desc   string
+	Benign bool // behaviour-preserving rewrite: no check may report anything
+}
+
+// b1 builds a single-edit behaviour-preserving variant.
+func b1(id string, props []string, file, old, new, desc string) mutant {
+	return mutant{ID: id, Props: props, Edits: []edit{{file, old, new}}, Desc: desc, Benign: true}
 }
 
 // m1 builds a single-edit mutant.
@@ -161,6 +167,17 @@ func runMutants(ms []mutant, onlyProp, repo string) []mutantResult {
 				res.Fired = append(res.Fired, r)
 			}
 			sort.Strings(res.Fired)
+			if j.m.Benign {
+				res.Outcome = "quiet"
+				if len(reps) > 0 {
+					res.Outcome = "false-alarm"
+					for _, r := range reps {
+						res.Fired = append(res.Fired, r.Construct)
+					}
+				}
+				results[i] = res
+				return
+			}
 			res.Outcome = "survived"
 			for _, want := range j.m.Rules {
 				if fired[want] {
@@ -182,7 +199,7 @@ func selftestFor(prop, repo, vdir string) any {
 	killed, survived, skipped := 0, 0, 0
 	for _, r := range res {
 		switch {
-		case r.Outcome == "killed":
+		case r.Outcome == "killed" || r.Outcome == "quiet":
 			killed++
 		case r.Outcome == "survived":
 			survived++
@@ -190,7 +207,8 @@ func selftestFor(prop, repo, vdir string) any {
 			skipped++
 		}
 	}
-	return map[string]any{"total": len(res), "killed": killed, "survived": survived, "skipped_or_invalid": skipped, "results": res}
+	return map[string]any{"total": len(res), "killed_or_quiet": killed, "killed": killed, "survived": survived, "skipped_or_invalid": skipped, "results": res,
+		"note": "mutants must be reported (killed); behaviour-preserving variants must stay silent (quiet)"}
 }
 
 func runSelftestCLI(prop, repo, vdir string) int {
@@ -198,7 +216,7 @@ func runSelftestCLI(prop, repo, vdir string) int {
 	bad := 0
 	for _, r := range res {
 		fmt.Printf("%-10s %-4s %-34s fired=%v expected=%v  %s\n", r.Outcome, r.Property, r.ID, r.Fired, r.Expected, r.Desc)
-		if r.Outcome != "killed" {
+		if r.Outcome != "killed" && r.Outcome != "quiet" {
 			bad++
 		}
 	}
